@@ -315,6 +315,12 @@ def work_chain(bins, seed, idx, tmp):
             name = "%s%d.%d.%d" % (rng.choice(["", "v"]), x, y, z)
             if repo.tag(name, annotated=rng.random() < 0.4):
                 tagv[name] = (x, y, z)
+                if rng.random() < 0.3:
+                    # a release candidate promoted to final on the same commit (and a floating non-version tag): the final release is the highest tag there
+                    for extra in ("%s%d.%d.%d-rc.%d" % (rng.choice(["", "v"]), x, y, z, rng.choice([1, 2, 10])), "%d.%d.%d-alpha.1" % (x, y, z), "latest"):
+                        if rng.random() < 0.6 and repo.tag(extra, annotated=rng.random() < 0.4):
+                            tagv[extra] = (x, y, z)
+                            st["chain_prerelease_tag_beside_final"] = st.get("chain_prerelease_tag_beside_final", 0) + 1
                 return (x, y, z)
             return lower_than
 
